@@ -83,7 +83,7 @@ def acls(config: str, **kwargs) -> LAcl:
     acl_kwargs = dict(version=version, indent=indent, max_ncwb=max_ncwb,
                       protocol_nr=protocol_nr, port_nr=port_nr)
     acls_: LAcl = [Acl(**acl_kwargs, **d) for d in parsed_acls]  # type: ignore
-    _add_addgr_to_aces(acls_, parser)
+    _add_addgr_to_aces(acls_, parser, version=version, max_ncwb=max_ncwb)
     if group_by:
         for acl_o in acls_:
             acl_o.group(group_by=group_by)
@@ -386,13 +386,14 @@ def _create_acls_w_acegs(parser: ConfigParser, group_by: str) -> LAcl:
     return acls_w_aceg
 
 
-def _add_addgr_to_aces(acls_: LAcl, parser: ConfigParser) -> None:
+def _add_addgr_to_aces(acls_: LAcl, parser: ConfigParser, **kwargs) -> None:
     """Add address groups to Ace.srcaddr Ace.dstaddr.
 
     :param acls_: Side effect.
+    :param kwargs: Params for address groups: version, max_ncwb (the same as for ACLs).
     """
     parsed_addgrs = parser.addgrs()
-    addgrs: LAddrGroup = [AddrGroup(**d) for d in parsed_addgrs]
+    addgrs: LAddrGroup = [AddrGroup(**kwargs, **d) for d in parsed_addgrs]
 
     for acl_o in acls_:
         _aces: LAce = [o for o in acl_o.items if isinstance(o, Ace)]
